@@ -75,6 +75,16 @@ CLAIMS["C28"] = dict(
     note="Quick tier: 5 representative pairs; thorough: all 120 pairs with W>=1. FSST compress/decompress is outside the claim.",
 )
 
+CLAIMS["C34"] = dict(
+    engine="kani-transplant",
+    technique="bounded symbolic execution of rowids/{bitmap,encoded_array,segment}.rs with Kani+CBMC over symbolic id lists, bitmaps and probes",
+    text=("Decides that the leaf encodings of a row id sequence are faithful: EncodedU64Array (whichever of U16/U32/U64 it picks) agrees with the "
+          "list on len/get/first/last/min/max/iter/slice and its binary_search is a correct search at every width boundary; Bitmap and BitmapSlice "
+          "counting agrees with bit-by-bit counting; U64Segment Range / RangeWithHoles / RangeWithBitmap / SortedArray / Array answer len, "
+          "contains, position, get and range like the expanded list. RowIdSequence-level delete/mask/slice/rechunk and RowIdIndex are outside."),
+    note="Vec is a fixed-capacity contiguous model (<=4 elements); lists of <=3 ids, bitmaps of <=32 bits.",
+)
+
 _IO = "truth lives in async object-store/tokio orchestration (crash points, interleavings, listings); Kani/CBMC has no model of tokio or object_store and no pure kernel implies the statement"
 NOT_APPLICABLE.update({
     "C01": "commit atomicity over crash points: " + _IO,
@@ -103,5 +113,5 @@ NOT_APPLICABLE.update({
     "C42": "relocatability is a statement about every path written by every writer being relative; decided by I/O",
 })
 _PLANNED = "planned in DESIGN.md §5 but its check is not built yet, so it is not claimed"
-for _p in ["C09", "C17", "C19", "C26", "C27", "C29", "C30", "C32", "C33", "C34", "C35", "C36", "C41", "C43"]:
+for _p in ["C09", "C17", "C19", "C26", "C27", "C29", "C30", "C32", "C33", "C35", "C36", "C41", "C43"]:
     NOT_APPLICABLE.setdefault(_p, _PLANNED)
